@@ -41,25 +41,25 @@ Theorem C09_subvolume_to_block : forall tbl vol wx wy wz ox oy oz gx gy gz sbs b
 Proof. exact decode_encode_at. Qed.
 Print Assumptions C09_subvolume_to_block.
 
-(* The encoder does return a block for every legal geometry (2..128 sub-blocks per dimension,
-   block inside the volume, fewer than 2^32-1 voxels) — PARTIAL: provided the number of sub-blocks
-   is even or the array has a single label. *)
-Theorem C09_encode_total_partial : forall tbl vol wx wy wz ox oy oz gx gy gz,
+(* The (repaired, repo_patches/C09-2-fix.diff) encoder returns a block for EVERY legal geometry —
+   2..128 sub-blocks per dimension, cubic or not, odd or even number of sub-blocks, block inside the
+   volume, fewer than 2^32-1 voxels — and every table containing the labels; with
+   C09_subvolume_to_block it decodes to the array. *)
+Theorem C09_encode_total : forall tbl vol wx wy wz ox oy oz gx gy gz,
   length vol = N.to_nat (wx * wy * wz) -> wx * wy * wz < 4294967295 ->
   2 <= gx <= 128 -> 2 <= gy <= 128 -> 2 <= gz <= 128 ->
   ox + 8 * gx <= wx -> oy + 8 * gy <= wy -> oz + 8 * gz <= wz ->
   exists sbs, gather vol wx wy ox oy oz gx gy gz = Ok sbs /\
-    (covers tbl sbs -> N.odd (gx * gy * gz) = false \/ (exists l, tbl = [l]) ->
-     exists b, encode_at tbl vol wx wy wz ox oy oz gx gy gz = Ok b).
+    (covers tbl sbs -> exists b, encode_at tbl vol wx wy wz ox oy oz gx gy gz = Ok b).
 Proof. exact encode_at_ok. Qed.
-Print Assumptions C09_encode_total_partial.
+Print Assumptions C09_encode_total.
 
-(* REFUTED for the code as it stands: with an odd number of sub-blocks (24x24x24, 24x24x40, ...)
-   and two or more labels no block is returned, for any array and table (known finding
-   C09-odd-subblocks: SBIndices would be 2-byte aligned and AliasByteToUint32 refuses it). *)
+(* REFUTED for the code as found (SBIndices viewed through AliasByteToUint32 only): with an odd
+   number of sub-blocks (24x24x24, 24x24x40, ...) and two or more labels no block is returned, for
+   any array and table. *)
 Theorem C09_odd_subblocks_refuted : forall tbl vol wx wy wz ox oy oz gx gy gz,
   N.odd (gx * gy * gz) = true -> (forall l, tbl <> [l]) ->
-  forall b, encode_at tbl vol wx wy wz ox oy oz gx gy gz <> Ok b.
+  forall b, encode_at_asfound tbl vol wx wy wz ox oy oz gx gy gz <> Ok b.
 Proof. exact encode_odd_refused. Qed.
 Print Assumptions C09_odd_subblocks_refuted.
 
@@ -137,7 +137,7 @@ Print Assumptions C09_binary_view.
 
 (* Non-vacuity: a concrete 16x16x16 array with two labels in one sub-block is encoded, decodes
    to itself, and the canonical table covers it (C09_rle_unrepaired_refuted, first two conjuncts);
-   the hypotheses of C09_encode_total_partial are met by it. *)
+   the hypotheses of C09_encode_total are met by it. *)
 Example C09_concrete_geometry :
   length rle_witness_array = N.to_nat (16 * 16 * 16) /\ 16 * 16 * 16 < 4294967295 /\
   N.odd (2 * 2 * 2) = false.
